@@ -114,6 +114,7 @@ type op struct {
 	G    string   `json:"g,omitempty"` // "by" | "none"
 	Keys []string `json:"keys,omitempty"`
 	Key  string   `json:"key,omitempty"`
+	Bg   int      `json:"bg,omitempty"` // reads: 1..3 = snapshot shard Bg-1 while reading, 4..6 = full compaction of shard Bg-4
 }
 
 var predKeys = []string{"_measurement", "host", "region", "_field"}
@@ -214,6 +215,9 @@ func gen(r *hx.Run) []json.RawMessage {
 			rng(&p)
 			p.SOff, p.EOff = o.Choose(2, "soff"), 1-o.Choose(2, "eoff")
 			p.K = "rf"
+			if o.Bool(1, 3, "bg") {
+				p.Bg = 1 + o.Choose(2*nShards, "bgkind")
+			}
 		case 3:
 			p.K = "d"
 			d := dpred{M: o.Choose(nMeas, "m"), MOp: o.Choose(3, "mop"), H: o.Choose(2, "h"), HOp: o.Choose(3, "hop"), R: o.Choose(2, "r"), ROp: o.Choose(2, "rop")}
@@ -287,16 +291,17 @@ func (p op) timeRange() (int64, int64) {
 }
 
 type world struct {
-	r       *hx.Run
-	st      *tsdb.Store
-	svc     *storage.Store
-	src     *anypb.Any
-	h       *model.History
-	nextID  uint64
-	mu      sync.Mutex // guards the harness' own bookkeeping (taken through simrt)
-	active  int        // writers / deleters in flight
-	started int        // writers / deleters ever started
-	written map[int]bool
+	r        *hx.Run
+	st       *tsdb.Store
+	svc      *storage.Store
+	src      *anypb.Any
+	h        *model.History
+	nextID   uint64
+	mu       sync.Mutex // guards the harness' own bookkeeping (taken through simrt)
+	active   int        // writers / deleters in flight
+	started  int        // writers / deleters ever started
+	written  map[int]bool
+	metaViol bool // one metadata observation per run is enough
 }
 
 func (w *world) stamp() uint64 { return simrt.Seq() }
@@ -427,18 +432,36 @@ func (w *world) doOp(p op, alone bool) {
 		}
 		r.Probe("probe_deletes")
 		r.Logf("%s delete where %q [%d..%d] matches %d series [%d,%d] err=%v", who, text, min, max, len(evs), inv, ret, err)
-	case "rf":
+	case "rf", "rg":
 		start, end := p.timeRange()
-		w.read(&query{kind: "filter", pred: p.P, start: start, end: end}, who, alone)
-	case "rg":
-		start, end := p.timeRange()
-		q := &query{kind: "group-by", pred: p.P, start: start, end: end, keys: p.Keys}
-		if p.G == "none" {
-			q.kind, q.keys = "group-none", nil
+		q := &query{kind: "filter", pred: p.P, start: start, end: end}
+		if p.K == "rg" {
+			q.kind, q.keys = "group-by", p.Keys
+			if p.G == "none" {
+				q.kind, q.keys = "group-none", nil
+			}
+		}
+		// optionally a snapshot / full compaction of one shard runs beside the read
+		var bg sync.WaitGroup
+		if p.Bg > 0 {
+			if sh := w.st.Shard(uint64((p.Bg-1)%nShards) + 1); sh != nil {
+				if p.Bg > nShards {
+					sh.ScheduleFullCompaction()
+				} else if e, err := sh.Engine(); err == nil {
+					if te, ok := e.(*tsm1.Engine); ok {
+						bg.Add(1)
+						simrt.Spawn(who+"-snapshot", func() {
+							defer bg.Done()
+							te.WriteSnapshot()
+						})
+					}
+				}
+			}
 		}
 		w.read(q, who, alone)
+		simrt.WGWait(&bg, 0)
 	case "tv":
-		if alone { // metadata answers are only compared when nothing else runs
+		if alone && !w.metaViol { // metadata answers are only compared when nothing else runs
 			start, end := p.timeRange()
 			w.tagMeta(&query{kind: "tag-values", pred: p.P, start: start, end: end, keys: []string{p.Key}}, who)
 		}
@@ -621,6 +644,42 @@ func (w *world) read(q *query, who string, alone bool) bool {
 	return ok
 }
 
+// failed: the run recorded a violation that ends it. Findings about the metadata calls (classes C42:…, not part
+// of C21's statement, reported as observations) do not stop the read checks.
+func (w *world) failed() bool {
+	if w.r.Aborted {
+		return true
+	}
+	for _, v := range w.r.Viol {
+		if !strings.HasPrefix(v.Class, "C42:") {
+			return true
+		}
+	}
+	return false
+}
+
+func hasNe(p *pnode) bool {
+	if p == nil {
+		return false
+	}
+	if p.L == "" {
+		return p.Ne
+	}
+	for i := range p.K {
+		if hasNe(&p.K[i]) {
+			return true
+		}
+	}
+	return false
+}
+
+func neTag(p *pnode) string {
+	if hasNe(p) {
+		return ":condition-with-neq"
+	}
+	return ""
+}
+
 func stringsOf(it cursors.StringIterator) []string {
 	var out []string
 	if it == nil {
@@ -639,6 +698,12 @@ func (w *world) tagMeta(q *query, who string) {
 	r := w.r
 	ctx := context.Background()
 	key := q.keys[0]
+	n0 := len(r.Viol)
+	defer func() {
+		if len(r.Viol) > n0 {
+			w.metaViol = true
+		}
+	}()
 	tmin, tmax := q.start, q.end-1
 	if q.start <= models.MinNanoTime {
 		tmin = models.MinNanoTime
@@ -664,12 +729,12 @@ func (w *world) tagMeta(q *query, who string) {
 		}
 	}
 	if err != nil {
-		r.Violate("C21:read-error", q.kind+":request", "%s %s(%s): %v", who, q.kind, q, err)
+		r.Violate("C42:svc-tag-meta-error", q.kind+":request", "%s %s(%s): %v", who, q.kind, q, err)
 		return
 	}
 	for i := 1; i < len(got); i++ {
 		if got[i-1] >= got[i] {
-			r.Violate("C21:tag-meta-unsorted", q.kind+":unsorted", "%s %s: values not strictly ascending: %q", who, q, got)
+			r.Violate("C42:svc-tag-meta-unsorted", q.kind+":"+key+":unsorted", "%s %s: values not strictly ascending: %q", who, q, got)
 			return
 		}
 	}
@@ -707,13 +772,13 @@ func (w *world) tagMeta(q *query, who string) {
 	sort.Strings(ws)
 	for _, v := range ws {
 		if !have[v] {
-			r.Violate("C21:tag-meta-missing", q.kind+":missing", "%s %s: %q belongs to a matching series with live data in range but the answer is %q", who, q, v, got)
+			r.Violate("C42:svc-tag-meta-missing", q.kind+":"+key+":missing"+neTag(q.pred), "%s %s: %q belongs to a matching series with live data in range but the answer is %q", who, q, v, got)
 			return
 		}
 	}
 	for _, g := range got {
 		if !domain[g] {
-			r.Violate("C21:tag-meta-phantom", q.kind+":phantom", "%s %s: %q was never written; answer %q", who, q, g, got)
+			r.Violate("C42:svc-tag-meta-phantom", q.kind+":"+key+":phantom", "%s %s: %q was never written; answer %q", who, q, g, got)
 			return
 		}
 	}
@@ -725,7 +790,7 @@ func (w *world) tagMeta(q *query, who string) {
 // ungrouped and grouped by 0, 1 and 2 keys.
 func (w *world) finalReads(who string) {
 	all := [2]int64{math.MinInt64, math.MaxInt64}
-	mid := [2]int64{slotTS(3), slotTS(20)}                          // all three shards; the point at slot 20 is just outside
+	mid := [2]int64{slotTS(3), slotTS(20)}                                 // all three shards; the point at slot 20 is just outside
 	seam := [2]int64{slotTS(slotsPerShard - 1), slotTS(slotsPerShard) + 1} // the two points around the first seam
 	hostA := &pnode{L: "or", K: []pnode{{Key: "host", V: "a"}, {Key: "_field", V: "f1"}}}
 	qs := []*query{
@@ -739,13 +804,13 @@ func (w *world) finalReads(who string) {
 		{kind: "group-by", start: seam[0], end: seam[1], keys: nil},
 	}
 	for _, q := range qs {
-		if len(w.r.Viol) > 0 || w.r.Aborted {
+		if w.failed() {
 			return
 		}
 		w.read(q, who, true)
 	}
 	for _, key := range []string{"host", "region", "_measurement", "_field", ""} {
-		if len(w.r.Viol) > 0 || w.r.Aborted {
+		if w.failed() || w.metaViol {
 			return
 		}
 		w.tagMeta(&query{kind: "tag-values", start: all[0], end: all[1], keys: []string{key}}, who)
@@ -808,7 +873,7 @@ func exec(r *hx.Run, prog []json.RawMessage) {
 			simrt.Spawn(fmt.Sprintf("client%d", c), func() {
 				defer wg.Done()
 				for _, p := range ops {
-					if len(r.Viol) > 0 || r.Aborted {
+					if w.failed() {
 						return
 					}
 					w.doOp(p, alone)
@@ -816,17 +881,17 @@ func exec(r *hx.Run, prog []json.RawMessage) {
 			})
 		}
 		simrt.WGWait(&wg, 0)
-		if len(r.Viol) == 0 && !r.Aborted {
+		if !w.failed() {
 			w.finalReads("quiescent")
 		}
-		if len(r.Viol) == 0 && !r.Aborted && !r.CfgBool("nosettle") {
+		if !w.failed() && !r.CfgBool("nosettle") {
 			simrt.Sleep(time.Duration(r.CfgInt("settle_s", 30))*time.Second, 0)
 			w.finalReads("settled")
 		}
-		if err := st.Close(); err != nil && len(r.Viol) == 0 && !r.Aborted {
+		if err := st.Close(); err != nil && !w.failed() {
 			r.Violate("machinery", "close", "store close: %v", err)
 		}
-		if len(r.Viol) == 0 && !r.Aborted && r.CfgBool("reopen") {
+		if !w.failed() && r.CfgBool("reopen") {
 			st2 := open()
 			if st2 == nil {
 				return
